@@ -314,12 +314,14 @@ func c26(in, out string, shard, of int) {
 		apiPairs [][2]string
 	}
 	variants := []variant{
-		{"a", "b", [][2]string{{"a", ""}, {"", "b"}, {"a", "long"}}, [][2]string{{"a", ""}, {"", "b"}, {"a", "b"}}},
-		{"", "b", [][2]string{{"", ""}, {"", "long"}}, [][2]string{{"", ""}, {"", "long"}}},
+		{"a", "b", [][2]string{{"a", ""}, {"", "b"}, {"a", "long"}}, [][2]string{{"a", ""}, {"", "b"}}},
+		{"", "b", [][2]string{{"", ""}, {"", "long"}}, [][2]string{{"", "long"}}},
 	}
 	if h.Arg("--pairs") == "full" {
 		variants[0].pairs = append(variants[0].pairs, [2]string{"b", ""}, [2]string{"a", "b"}, [2]string{"long", "long"})
 		variants[1].pairs = append(variants[1].pairs, [2]string{"", "b"}, [2]string{"b", ""})
+		variants[0].apiPairs = append(variants[0].apiPairs, [2]string{"a", "b"})
+		variants[1].apiPairs = append(variants[1].apiPairs, [2]string{"", ""})
 	}
 	docs, reads, apis, denied, refusedOther := 0, 0, 0, 0, 0
 	lineNo := 0
